@@ -3,6 +3,7 @@ import io
 from dataclasses import MISSING
 from dataclasses import Field
 from dataclasses import fields
+from typing import Final
 from typing import Literal
 from typing import TypeVar
 from typing import assert_never
@@ -93,6 +94,7 @@ def get_writer(
 
 
 T = TypeVar("T")
+_nullable_kafka_types: Final = frozenset({"string", "bytes", "records", "datetime_i64"})
 
 
 def get_field_writer(
@@ -115,12 +117,22 @@ def get_field_writer(
     # fields, it's implemented by the presence or absence by the tag itself. Hence, we
     # can have optional fields with in-transit value types that cannot represent None.
     # To be able to match an optional tagged field to a writer that cannot accept None,
-    # we hard-code all tagged fields as not optional here.
+    # we treat tagged fields as not optional here, unless their type does have a null
+    # representation on the wire: those are read with the nullable reader, and need to
+    # be written in the matching form.
     optional = False if is_tag else is_optional(field)
     field_class = classify_field(field)
 
     match field_class:
-        case PrimitiveField() | PrimitiveTupleField():
+        case PrimitiveField():
+            kafka_type = get_schema_field_type(field)
+            inner_type_writer = get_writer(
+                kafka_type=kafka_type,
+                flexible=flexible,
+                optional=optional
+                or (is_optional(field) and kafka_type in _nullable_kafka_types),
+            )
+        case PrimitiveTupleField():
             inner_type_writer = get_writer(
                 kafka_type=get_schema_field_type(field),
                 flexible=flexible,
@@ -129,7 +141,7 @@ def get_field_writer(
         case EntityField(field_type):
             inner_type_writer = (
                 entity_writer(field_type, nullable=True)
-                if optional
+                if is_optional(field)
                 else entity_writer(field_type, nullable=False)
             )
         case EntityTupleField(field_type):
